@@ -117,6 +117,76 @@ theorem default_selection (ts : List Task) (dflt : Option (List Tok)) :
   · cases dflt <;> rfl
   · intro a rest; rfl
 
+/-! ## command-line variables (`name=value` words) -/
+
+/-- what reaches the selection from the command line: the words that are not `name=value` words, in their order;
+    filtering again changes nothing; a command line without such words is passed on as it is -/
+theorem cli_strip_spec (args : List Tok) :
+    (∀ a, a ∈ stripVars args ↔ a ∈ args ∧ isVarWord a = false) ∧ List.Sublist (stripVars args) args ∧
+    stripVars (stripVars args) = stripVars args ∧
+    ((∀ a ∈ args, isVarWord a = false) → stripVars args = args) := by
+  refine ⟨fun a => ?_, List.filter_sublist, ?_, fun h => ?_⟩
+  · simp [stripVars, List.mem_filter]
+  · simp [stripVars, List.filter_filter]
+  · exact List.filter_eq_self.2 (by intro a ha; simp [h a ha])
+
+/-- no word with `=` that does not start with `-` is ever looked up as a task or target: a target whose name contains
+    `=` cannot be selected from the command line -/
+theorem cli_var_word_never_selected (args : List Tok) (a : Tok) (h : a ∈ stripVars args) :
+    a = [] ∨ a.head? = some '-' ∨ a.contains '=' = false := by
+  have h2 : isVarWord a = false := ((cli_strip_spec args).1 a).1 h |>.2
+  cases a with
+  | nil => exact Or.inl rfl
+  | cons c cs =>
+    simp only [isVarWord, Bool.and_eq_false_iff, bne_eq_false_iff_eq] at h2
+    rcases h2 with h2 | h2
+    · exact Or.inr (Or.inl (by simp [h2]))
+    · exact Or.inr (Or.inr h2)
+
+/-- the `run` command given words on the command line: the selection is exactly what the remaining words denote
+    (`filter_spec`), the set considered is its closure (`closure`, `closure_closed` apply to it unchanged); when no word
+    remains the configured `default_tasks` / all tasks are taken (`default_selection`) -/
+theorem cli_selection_spec (ts : List Task) (args : List Tok) (dflt : Option (List Tok)) (p : Plan)
+    (h : planCli ts args dflt false = .ok p) :
+    p.closure = closureOf (prepare ts) p.sel ∧ p.tasks = prepare ts ∧
+    (stripVars args ≠ [] → Resolves (prepare ts) [] (stripVars args) p.sel) ∧
+    (stripVars args = [] → process (prepare ts) dflt = .ok p.sel) := by
+  unfold planCli planGen at h
+  cases hs : processGen (prepare ts) false (selArgs (stripVars args) dflt) with
+  | error e => simp [hs] at h
+  | ok sel =>
+    simp only [hs, Bool.false_eq_true, if_false, Except.ok.injEq] at h
+    subst h
+    refine ⟨rfl, rfl, fun hne => ?_, fun he => ?_⟩
+    · cases hl : stripVars args with
+      | nil => exact absurd hl hne
+      | cons a rest =>
+        rw [hl] at hs
+        exact (filter_spec (prepare ts) (a :: rest) sel).1 hs
+    · rw [he] at hs
+      cases dflt <;> exact hs
+
+/-- an empty word is an ordinary word: not a variable, kept in place; named as a task it is rejected as not found, after
+    an option that takes a value it is that value -/
+example : cliArgs [['t'], [], ['=', 'x']] = [['t'], []] ∧
+    processGen (prepare [{ name := ['t'] }]) false (selArgs (cliArgs [['t'], []]) none) = .error (.notFound []) ∧
+    processGen (prepare [{ name := ['t'], params := [{ short := some 'v', long := [], takesVal := true }] }]) false
+      (selArgs (cliArgs [['t'], ['-', 'v'], []]) none) = .ok [['t']] := by decide
+
+/-- F-C12-empty-word-crash (fixed in /repo by 0ab6253): before the fix an empty word made `process_args` raise
+    IndexError outside the `try` of `DoitMain.run` — no `ERROR` line, no exit code 3 — where the statement demands that
+    the unknown name `""` be rejected -/
+theorem pinned_empty_word_counterexample :
+    pinnedCliArgs [['t', '1'], []] = none ∧ cliArgs [['t', '1'], []] = [['t', '1'], []] ∧
+    (∀ args, ¬ args.contains [] = true → pinnedCliArgs args = some (cliArgs args)) := by
+  refine ⟨by decide, by decide, fun args h => ?_⟩
+  simp only [pinnedCliArgs, cliArgs, h]
+  rfl
+
+/-- the detached value of a task option is taken out as well: `t --val a=b x` selects what `t --val x` selects -/
+example : stripVars [['t'], ['-', '-', 'v'], ['a', '=', 'b'], ['x'], ['k', '=', '1'], ['-', '-', 'v', '=', 'c', '=', 'd'], []]
+    = [['t'], ['-', '-', 'v'], ['x'], ['-', '-', 'v', '=', 'c', '=', 'd'], []] := by decide
+
 /-! ## `single` -/
 
 /-- with `--single` every named task ends up without task dependencies — for a group: each of its sub-tasks does —
